@@ -2,10 +2,13 @@
 //! usage: pkverif <Cxx> <quick|thorough> [--replay <file>]
 
 #![allow(clippy::type_complexity)]
+#![allow(dead_code)]
 
+mod cer;
 mod core;
 mod model;
 mod props;
+mod rt;
 
 use std::cell::RefCell;
 
